@@ -30,11 +30,18 @@ class Check:
         self.configs = []
 
     # -- recording ---------------------------------------------------------
+    @staticmethod
+    def _norm(instance):
+        # fresh-symbol counters are run-dependent: never part of an instance key
+        return re.sub(r"#\d+", "", str(instance))
+
     def ok(self, rule, instance, detail="", nontrivial=True):
+        instance = self._norm(instance)
         self.obligations.append((rule, instance, True, nontrivial, detail))
 
     def fail(self, rule, instance, msg, where="", kind="violation"):
         """A rule instance that does not hold. key = (rule, instance) -- never a line number."""
+        instance = self._norm(instance)
         self.obligations.append((rule, instance, False, True, msg))
         self.violations.append(
             {"rule": rule, "instance": instance, "key": f"{self.pid}:{rule}:{instance}", "msg": msg, "where": where, "kind": kind}
